@@ -36,6 +36,16 @@ def conventional_plus(r, idx):
     deps = []
     res = next(iter(api.info["resources"].items()))
     k = idx % 4
+    # every API: a GET with REQUIRED primitive fields that travel as query parameters (the standard create/lookup shape)
+    lk = main.message("LookupThingRequest")
+    lk.field("name", 1, "string", required=True).field("region", 2, "string", required=True).field("limit", 3, "int32", required=True)
+    lk.field("view", 4, "string")
+    lkr = main.message("LookupThingResponse"); lkr.field("found", 1, "bool")
+    svc.rpc("LookupThing", lk.fqn, lkr.fqn, http=("get", "/v1/{name=things/*}:lookup"), sigs=["name,region"])
+    mk = main.message("MakeThingRequest")
+    mk.field("parent", 1, "string", required=True).field("thing", 2, lkr.fqn, required=True).field("thing_id", 3, "string", required=True)
+    svc.rpc("MakeThing", mk.fqn, lkr.fqn, http=("post", "/v1/{parent=projects/*}/things"), body="thing", sigs=["parent,thing,thing_id"])
+    feats.append("required-query-params")
     if k in (0, 2):
         # required fields of several kinds + reserved-word fields, custom :verb method, deprecated, keyword-named rpc
         req = main.message("CheckThingRequest")
@@ -86,7 +96,7 @@ def option_sets(idx, quick):
         {"params": ["transport=grpc", "python-gapic-templates=ads-templates", "old-naming"], "yaml": None, "retry": None},
     ]
     if quick:
-        return [sets[idx % 2], sets[2 + idx % 3]]
+        return [sets[1] if idx % 2 else sets[3], sets[idx % 3 if idx % 3 != 1 else 4]]
     return sets
 
 
